@@ -448,7 +448,11 @@ def run_escapes(spec, acc, api):
                 enc = lib[fn]([s], None)
             except Exception as exc:  # pylint: disable=broad-except
                 enc = None if type(exc).__name__ in ('UnicodeEncodeError', 'ValueArgsError') else exc
-            if enc is not None and not (isinstance(enc, str) and urllib.parse.unquote(enc, errors='surrogatepass') == s):
+            try:
+                reversible = isinstance(enc, str) and urllib.parse.unquote(enc, errors='surrogatepass') == s
+            except (UnicodeError, ValueError):
+                reversible = False
+            if enc is not None and not reversible:
                 acc.violation('urlEncode-not-reversible', f'{fn}(<string with an unpaired surrogate>) = {enc!r}', {'s': s.encode('utf-16', 'surrogatepass').hex()})
             acc.count('url_encode_checks')
     # the same functions reached through a partial application (systemPartial binds leading arguments): every call of the partial is a
